@@ -23,6 +23,7 @@ def main():
     from vf import explorer
     budget = float(os.environ.get("VF_BUDGET_S", "900" if a.tier == "quick" else "5400"))
     explorer.DEADLINE[0] = time.time() + budget
+    explorer.CROSS[0] = (a.tier == "thorough") or os.environ.get("VF_CROSS") == "1"
     try:
         code = mod.run(a.tier, seed)
     except SystemExit:
